@@ -323,6 +323,22 @@ def corpus(tier):
                        [nh_.from_array(np.array(2, dtype=np.int64), "n")])
     items.append(("constuse:loop_state_starts_at_constant", oh.make_model(g_, opset_imports=[oh.make_opsetid("", 18)], ir_version=9).SerializeToString(),
                   [("x", int(TP.FLOAT), (2,))]))
+    # a Loop body that hands one state variable on to another one (outputs: cond, a + b, a): the emitted bindings must read every
+    # right-hand side before binding any target
+    body_ = oh.make_graph([oh.make_node("Identity", ["ci"], ["co"]), oh.make_node("Add", ["a_in", "b_in"], ["s"])], "body",
+                          [oh.make_tensor_value_info("it", TP.INT64, []), oh.make_tensor_value_info("ci", TP.BOOL, []),
+                           oh.make_tensor_value_info("a_in", TP.FLOAT, [2]), oh.make_tensor_value_info("b_in", TP.FLOAT, [2])],
+                          [oh.make_tensor_value_info("co", TP.BOOL, []), oh.make_tensor_value_info("s", TP.FLOAT, [2]), oh.make_tensor_value_info("a_in", TP.FLOAT, [2])])
+    g_ = oh.make_graph([oh.make_node("Loop", ["n", "", "x", "y"], ["fa", "fb"], body=body_)], "loopswap",
+                       [oh.make_tensor_value_info("x", TP.FLOAT, [2]), oh.make_tensor_value_info("y", TP.FLOAT, [2])],
+                       [oh.make_tensor_value_info("fa", TP.FLOAT, [2]), oh.make_tensor_value_info("fb", TP.FLOAT, [2])],
+                       [nh_.from_array(np.array(3, dtype=np.int64), "n")])
+    m_ = oh.make_model(g_, opset_imports=[oh.make_opsetid("", 18)], ir_version=9)
+    try:
+        onnx.checker.check_model(m_, full_check=True)
+        items.append(("constuse:loop_state_handed_to_another_state", m_.SerializeToString(), [("x", int(TP.FLOAT), (2,)), ("y", int(TP.FLOAT), (2,))]))
+    except Exception:  # noqa: BLE001
+        pass
     from vp.gen import models as GM
     n_gen = 25 if tier == "quick" else 300
     for i in range(n_gen):
